@@ -93,6 +93,14 @@ class Exec(object):
                 w.begin_close(s[1])
         elif op == "halfconn":
             w.half_connection(s[1])
+        elif op == "hold":
+            self._pump_mode_before = w.pump_mode
+            w.pump_mode = "hold"
+        elif op == "turns":
+            w.pump_rounds(s[1])
+        elif op == "unhold":
+            w.pump_mode = getattr(self, "_pump_mode_before", "eager")
+            w.pump_rounds(50)
         elif op == "adv":
             w.advance(s[1])
         elif op == "restart":
